@@ -43,6 +43,14 @@ CLAIMED = {
    design="DESIGN.md §3 C06",
    note=BASE_NOTE + "PARTIAL for the runtime half: interleavings inside libdeflate/zopfli/rayon finer than the two shared-state accesses per trial are exercised, not modelled; compressors are assumed deterministic functions of (deflater, input).",
    technique="Coq proof (invariant over LTS runs by induction on the schedule) + forced-schedule trace validation"),
+ "C08": dict(
+   text="Machine-checked on the pipeline model (Properties/C08.v), for every oracle environment and every setting of the other switches: with bit-depth / colour-type / grayscale changes disabled the emitted image keeps "
+        "its bit depth / colour type code / grayness; with palette changes disabled an indexed image that stays indexed keeps its exact palette; 'keep' preserves the interlace flag and a requested mode is the mode of whatever is emitted; "
+        "dimensions never change; with everything disabled optimize_raw produces nothing (IDAT re-emitted bit for bit). Proof = a generic invariant theorem over the twelve blocks of perform_reductions + provenance of the emitted image. "
+        "Tied to the code by model replay over all 16 switch subsets; oracle compares IHDR/PLTE/tRNS/IDAT directly.",
+   design="DESIGN.md §3 C08",
+   note=BASE_NOTE + "the link from the model image header to the IHDR bytes of `output` is by definition of the model's `output` (tied by replay).",
+   technique="Coq proof (invariant over the reduction blocks, header-effect lemma per transformation) + model replay"),
  "C13": dict(
    text="Machine-checked (Properties/C13.v): the clock is an oracle of the model, so the pipeline theorems hold for every pattern of answers; never-larger under any landing point; the evaluator returns the minimal completed trial "
         "whichever trials were skipped. Tied to the code through the deadline hook: for EVERY k in 0..K (K = consultations of the untimed run) the run with expiry at the k-th check is replayed on the model under the recorded clock, "
